@@ -5,6 +5,7 @@ import fns
 PID = "C09"
 MODEL_TARGETS = ["Spike"]
 PROPS_TARGETS = ["Props_C09"]
+SUPPORT_TARGETS = ["FloatExact"]
 TRUSTED_BASE = ["modelled, not verified: numpy masked arithmetic (a result is masked where an operand is) and "
                 "boolean-mask assignment; np.ma.diff; np.minimum"]
 ASSUMPTIONS = ["values and thresholds on the dyadic grid (floats == rationals)",
